@@ -49,7 +49,7 @@ StringResult(page, p) == CASE page = "ok" -> [ok |-> TRUE, out |-> "page:ok"]
                            [] page = "ok2" -> [ok |-> TRUE, out |-> "page:ok2"]        \* another page of the same layout
                            [] page = "bare" -> [ok |-> TRUE, out |-> "page:bare"]      \* a page of that layout without any insert
                            [] page = "static" -> [ok |-> TRUE, out |-> "page:static"]  \* text and argument-less components that read the caller's data
-                           [] page \in {"bad", "bad-in-component", "bad-in-layout", "bad-at-start", "bad-in-loop", "bad-in-slot", "bad-in-insert", "bad-in-array", "bad-in-args", "bad-in-object", "bad-in-for-cond", "bad-in-elseif", "bad-in-each-else", "bad-in-for-else", "bad-lt", "bad-in-assign", "bad-in-unused-arg", "bad-in-shadowed-arg", "nested-use"} ->
+                           [] page \in {"bad", "bad-in-component", "bad-in-layout", "bad-at-start", "bad-in-loop", "bad-in-slot", "bad-in-insert", "bad-in-array", "bad-in-args", "bad-in-object", "bad-in-for-cond", "bad-in-elseif", "bad-in-each-else", "bad-in-for-else", "bad-lt", "bad-in-assign", "bad-in-unused-arg", "bad-in-shadowed-arg", "bad-after-long", "nested-use"} ->
                                   [ok |-> FALSE, err |-> "runtime error", at |-> p]      \* fails at different points of the render
                            [] page \in NotTemplates -> [ok |-> FALSE, err |-> "template not found", at |-> p]
                            [] page = "errpage" -> [ok |-> TRUE, out |-> "page:custom-error"]
